@@ -1,6 +1,6 @@
 /-
   C04/Early — driver part for the early-error requests.
-    early2 <stmt-tree>               the Lean model (`accepts`) and specification (`earlyOK`) decide; dev = `devCont`
+    early2 <stmt-tree>               the Lean model (`accepts`) and specification (`earlyOK`) decide
     early <expect> <region|-> <src>  the residual hand table for syntax that is not in the statement-tree model
                                      (`expect` = what ES5 demands, clause cited in harness/cmd/c04/early.go)
 -/
@@ -67,8 +67,7 @@ def handle2 (ws : List String) : String :=
   | [n, tree] =>
     match n.toNat?.bind fun n => readSL n (tree.splitOn ",") with
     | some (prog, []) =>
-      verdict (acceptsL {} prog) ++ " " ++ verdict (Spec.earlyOKL {} prog) ++ " " ++
-        (if Spec.devContL {} prog then "continue_non_iteration_label" else "-")
+      verdict (acceptsL {} prog) ++ " " ++ verdict (Spec.earlyOKL {} prog) ++ " -"
     | _ => "bad-request bad-request -"
   | _ => "bad-request bad-request -"
 
